@@ -228,7 +228,11 @@ def mutate_manifest(rnd, h):
             for dd in g.dd_info:
                 if dd in g.sources: g.sources[dd] = engine.dd_text(g.dd_info[dd])
     h.rewrite_manifest()
-    for dd, t in g.ddtext.items(): h.add(ec.Step('setdd', 'step setdd %s %s' % (hx(dd), hx(t))))
+    for dd, t in g.ddtext.items():
+        h.add(ec.Step('setdd', 'step setdd %s %s' % (hx(dd), hx(t))))
+        # a produced dyndep file whose text changed is regenerated by the next build; until then it is absent
+        # (a stale one would name nodes the generator's description no longer knows)
+        if kind == 'rename-all': h.add(ec.Step('rm', 'step rm %s' % hx(dd), path=dd))
     for dd in g.dd_info:
         if dd in g.sources and h.sources.get(dd) != g.sources[dd]: h.edit(dd, g.sources[dd])
     return kind
@@ -509,9 +513,10 @@ def oracle(h, st, b, pre):
         bad.append(('status', 'status %d, expected %d (unknown name: %s, unremovable in scope: %s)' % (rc, 1 if (unknown or fails) else 0, unknown, fails)))
     return bad
 
-def oracle_seq(h, blks, k):
+def oracle_seq(h, blks, k, stats=None):
     """oracles relating the clean block k to its neighbours: repeated clean, dry twin, rebuild"""
     st, b, pre = blks[k]; bad = []
+    if stats is None: stats = collections.Counter()
     removed, cnt, rc = clean_result(b)
     if cnt is None: return bad
     if k > 0 and blks[k - 1][0].kind == 'clean' and blks[k - 1][0].line.replace('dry=1', 'dry=0') == st.line.replace('dry=1', 'dry=0') \
@@ -519,6 +524,7 @@ def oracle_seq(h, blks, k):
         pst, pb, ppre = blks[k - 1]; premoved, pcnt, prc = clean_result(pb)
         if pcnt is not None:
             stuck = {d for d in pre['dirs'] if d not in pre['files']}
+            stats['repeat-after-real' if not pst.dry else ('real-after-dry' if not st.dry else 'dry-after-dry')] += 1
             if not pst.dry and (removed or cnt != (len([p for p in scope(st, pre)[0] if p in stuck]) if st.dry else 0)):
                 bad.append(('idempotent', 'the same clean repeated at once removed %s, count %d' % (removed, cnt)))
             if pst.dry and not st.dry and pcnt != cnt and not any(p in stuck for p in scope(st, pre)[0]):
@@ -532,6 +538,7 @@ def oracle_seq(h, blks, k):
             if nb.exit == 0 and not nst.targets and not nst.opts.get('faults'):
                 L = Loaded(nst.g, {p: c for p, (mt, c) in nb.files.items()})
                 outs = {o for e, os_, ins in L.edges if not e.phony for o in os_}
+                stats['rebuild-checked'] += 1; stats['rebuild-checked-files'] += len([p for p in removed if p in outs])
                 miss = sorted(p for p in removed if p in outs and p not in nb.files)
                 if miss: bad.append(('rebuild', 'cleaned outputs not re-created by the following successful build: %s' % miss))
             break
@@ -548,7 +555,7 @@ CYCLE_FINDING = 'clean-target-cycle-overflow'
 class Report:
     def __init__(s):
         s.corr = []; s.viol = []; s.known = {}; s.evals = 0; s.nontrivial = 0; s.modes = collections.Counter()
-        s.samples = []; s.removed_total = 0
+        s.samples = []; s.removed_total = 0; s.stats = collections.Counter()
 
 def check_hists(hists, tr, crashes=(), known_ids=()):
     rep = Report()
@@ -586,7 +593,9 @@ def check_hists(hists, tr, crashes=(), known_ids=()):
         if m is None: rep.corr.append((h, '%s: no model result' % cid)); continue
         d = compare(st, b, pre, m)
         if d: rep.corr.append((h, '%s `%s`: %s' % (cid, st.line[11:80], '; '.join(d[:3]))))
-        bad = oracle(h, st, b, pre) + oracle_seq(h, blks, k)
+        bad = oracle(h, st, b, pre) + oracle_seq(h, blks, k, rep.stats)
+        if cnt: rep.stats['removing:' + st.mode] += 1
+        if rc: rep.stats['status1'] += 1
         for kind, text in bad:
             f = FINDINGS.get(kind)
             if f and f[0] in known_ids and f[1](st):
@@ -610,6 +619,7 @@ if __name__ == '__main__':
         import time; t0 = time.time()
         rep = run(hs, known)
         print('evaluations', rep.evals, 'nontrivial', rep.nontrivial, 'removed', rep.removed_total, dict(rep.modes), '%.1fs' % (time.time() - t0))
+        print('stats', dict(rep.stats))
         print('correspondence mismatches:', len(rep.corr))
         for h, t in rep.corr[:8]: print('  CORR', t)
         kinds = collections.Counter(k for k, h, t in rep.viol)
